@@ -135,7 +135,11 @@ func SafeStdScopeTuple() rel.Tuple {
 				if !is {
 					return nil, fmt.Errorf("//log.printf: format not a string: %v", a)
 				}
-				args, is := b.(rel.Set)
+				var args rel.Array
+				set, is := b.(rel.Set)
+				if is {
+					args, is = rel.AsArray(set)
+				}
 				if !is {
 					return nil, fmt.Errorf("//log.printf: args not an array: %v", b)
 				}
